@@ -39,6 +39,7 @@ type scen struct {
 	adders  [][]evSpec // per adder thread, the events it adds in order
 	stop    bool       // a thread calls Stop concurrently
 	bound   int
+	gap     time.Duration // pause of an adder between two Adds (a trickle slower than the count limit)
 }
 
 const flushTimeout = 200 * time.Millisecond
@@ -55,14 +56,14 @@ type batchObs struct {
 }
 
 type obs struct {
-	events    []*pipeline.Event
-	idOf      map[*pipeline.Event]int
-	addedAt   []time.Duration // when Add returned... when Add was called
-	addRet    []bool
-	batches   []*batchObs // in OutFn entry order
-	commits   []int       // event ids in commit order
-	commitAt  []time.Duration
-	inOut     map[int]bool // ids that reached OutFn (or were in a batch without iterable events)
+	events     []*pipeline.Event
+	idOf       map[*pipeline.Event]int
+	addedAt    []time.Duration // when Add returned... when Add was called
+	addRet     []bool
+	batches    []*batchObs // in OutFn entry order
+	commits    []int       // event ids in commit order
+	commitAt   []time.Duration
+	inOut      map[int]bool // ids that reached OutFn (or were in a batch without iterable events)
 	stopCalled bool
 	stopped    bool
 	addersDone int
@@ -131,7 +132,10 @@ func body() {
 			evs = append(evs, e)
 		}
 		vsched.GoNamed("adder", func() {
-			for _, e := range evs {
+			for i, e := range evs {
+				if i > 0 && sc.gap > 0 {
+					vsched.Sleep(sc.gap)
+				}
 				o.addedAt[o.idOf[e]] = vsched.Now()
 				b.Add(e)
 			}
@@ -307,6 +311,9 @@ func scenarios(thorough bool) []scen {
 	add("w2c2-2adders", 2, 2, 0, false, reg(2, 1), reg(2, 1))
 	add("w2bytes4", 2, 0, 4, false, []evSpec{{1, kRegular}, {5, kRegular}, {1, kRegular}, {1, kRegular}})
 	add("w2c2-kinds", 2, 2, 0, false, []evSpec{{1, kParent}, {1, kChild}, {1, kRegular}, {1, kParent}})
+	// a trickle of zero-size events (children of a split have Size 0) slower than the count limit, faster than the flush timeout
+	s = append(s, scen{name: "trickle-size0-children", workers: 1, count: 5, adders: [][]evSpec{{{0, kChild}, {0, kChild}, {0, kChild}, {0, kChild}}}, gap: 150 * time.Millisecond, bound: 1})
+	s = append(s, scen{name: "trickle-regular-bytes", workers: 2, count: 0, bytes: 10, adders: [][]evSpec{{{1, kRegular}, {0, kRegular}, {1, kRegular}}}, gap: 150 * time.Millisecond, bound: 1})
 	add("stop-w1c1", 1, 1, 0, true, reg(2, 1))
 	add("stop-w2c2", 2, 2, 0, true, reg(3, 1))
 	if thorough {
